@@ -55,8 +55,10 @@ def main(path):
             return 0
         if eng.startswith("E2"):
             from checks import c11
-            exe = build.harness("plain", "sched_driver", ["sched_driver.c"],
-                                extra=['-DVERIF_OVNI_C="%s"' % os.path.join(REPO, "src/rt/ovni.c")], link_extra=["-ldl"])
+            small = bool(r.get("small_buffer"))
+            exe = build.harness("plain", "sched_driver_b97" if small else "sched_driver", ["sched_driver.c"],
+                                extra=['-DVERIF_OVNI_C="%s"' % os.path.join(REPO, "src/rt/ovni.c")] + (["-DVERIF_BUFSZ=97"] if small else []),
+                                link_extra=["-ldl"])
             srv = c11.Server(exe, sc.sub("srv"))
             for run in (1, 2):
                 pts, verdict, outcome = srv.run(r["scenario"], r["mode"], r["schedule"])
